@@ -211,12 +211,14 @@ class Node:
     def __init__(self, cond, dirs):
         self.cond, self.dirs = cond, dirs       # dirs: list of (directive id, value id)
         self.chains = []                        # nested: list of chains (lists of Node)
+        self.extra = []                         # further raw directive lines (mini-server stream)
         self.idx = self.parent = self.prev = None
 
 
 class Config:
-    def __init__(self, gdirs, chains):
+    def __init__(self, gdirs, chains, head=None):
         self.gdirs, self.chains = gdirs, chains
+        self.head = head or ['server.document-root = "/tmp"']
         self.nodes = [None]
         self._number(chains, 0)
 
@@ -231,7 +233,7 @@ class Config:
                 prev = nd.idx
 
     def text(self):
-        out = ['server.document-root = "/tmp"']
+        out = list(self.head)
         out += [DIRECTIVES[d] % v for d, v in self.gdirs]
 
         def block(chains, ind):
@@ -245,6 +247,7 @@ class Config:
                     else:
                         out.append(ind + "else " + head)    # else on the next line
                     out.extend(ind + "  " + DIRECTIVES[d] % v for d, v in nd.dirs)
+                    out.extend(ind + "  " + x for x in nd.extra)
                     block(nd.chains, ind + "  ")
                     out.append(ind + "}")
         block(self.chains, "")
@@ -602,6 +605,23 @@ def cfg_from_tokens(ntoks):
     return cfg
 
 
+def tree_oracle(cfg, o, verbose):
+    """the parser must build one block per condition / else of the file, nested and chained as
+    written (blocks of distinct conditions must not be merged or lost)"""
+    sep = o.index("/")
+    built = {}
+    for nd in o[2:sep]:
+        f = nd.split(":")
+        built[int(f[0])] = (int(f[1]), None if f[2] == "-" else int(f[2]))
+    want = {i: (nd.parent, nd.prev) for i, nd in enumerate(cfg.nodes) if i}
+    if built != want:
+        det = " [file defines %d blocks %s, parser built %d %s]" % (len(want), want, len(built), built) \
+            if verbose else ""
+        return ("the parser did not build the blocks the configuration file defines (distinct blocks "
+                "merged or lost, or nesting / else-chain links differ)") + det
+    return None
+
+
 def oracle(line, out, verbose=False):
     """replays the operation sequence against the reference semantics: whenever every field a
     decision depends on is available, config_check_cond / patch_config must give what the
@@ -613,6 +633,11 @@ def oracle(line, out, verbose=False):
     cfghex, ntoks, ops = parse_line(line)
     cfg = _cfg_cache.get(cfghex) or cfg_from_tokens(ntoks)
     o = out.split(" ")
+    v = tree_oracle(cfg, o, verbose)
+    if v:
+        return v
+    if line.startswith("srv "):
+        return srv_oracle(cfg, ops, o[o.index("/") + 1:], verbose)
     obs = o[o.index("/") + 1:]
     if len(obs) != len(ops):
         return "number of observations differs from number of operations"
@@ -637,6 +662,8 @@ def oracle(line, out, verbose=False):
             sl["valid"] = set(f[2].replace("-", ""))
         elif k == "k":
             i = int(f[2])
+            if ob[1] == "-":
+                return "a block of the configuration file does not exist in the parsed configuration"
             got = ob[1] == "1"
             want = cfg.applies(i, sl["at"])
             det = " [op %d: block %d]" % (step, i) if verbose else ""
@@ -811,6 +838,204 @@ def gen_corpus(ctx):
     _cfg_cache.clear()
 
 
+# ----------------------------------------------------------------------------
+# mini-server stream: whole request pipeline with module rewrites and request restarts
+# ----------------------------------------------------------------------------
+TRUSTED, UNTRUSTED = "127.0.0.1", "8.8.8.8"
+RW_RULES = [("^/rw/(.*)$", "/\\1", "/$1"), ("^/q/(.*)$", "/\\1?z", "/$1?z"), ("^/php/(.*)$", "/\\1.php", "/$1.php")]
+RW_LINE = "url.rewrite-once = ( " + ", ".join('"%s" => "%s"' % (a, c) for a, _, c in RW_RULES) + " )"
+
+
+def srv_head(order):
+    return ['server.document-root = "@DOCROOT@"', 'server.compat-module-load = "disable"',
+            'server.modules = ( %s )' % ", ".join('"%s"' % m for m in order + ["mod_setenv"]),
+            'extforward.forwarder = ( "%s" => "trust" )' % TRUSTED,
+            'extforward.headers = ( "X-Forwarded-For" )']
+
+
+def srv_reference(cfg, conn, rq):
+    """reference history of one request through the hooks: which attributes the request has
+    when the core settings are computed for the last time (http_response_config) and at
+    uri_clean / docroot; module behaviour as documented: a trusted peer's X-Forwarded-For /
+    X-Forwarded-Proto replace remote address / scheme for the rest of the request (and the
+    scheme for the connection), url.rewrite-once restarts the request with the new target"""
+    peer, method, target, host, hdrs = rq
+    path, _, query = target.partition("?")
+    ver, pk = packed(peer)
+    at = blank_attrs()
+    at.update({"U": path, "Q": query, "H": host, "C": conn["scheme"], "M": method, "S": ":80",
+               "I": (ver, pk, peer), "R": {k.lower(): v for k, v in hdrs}})
+    fwd_done = rw_done = False
+    cur = target
+    for _ in range(3):
+        core = dict(at)
+        restart = False
+        for mod in cfg.order:
+            if mod == "mod_extforward" and not fwd_done:
+                xff = at["R"].get("x-forwarded-for")
+                if peer == TRUSTED and xff:
+                    fwd_done = True
+                    v2, p2 = packed(xff)
+                    at = dict(at, I=(v2, p2, xff))
+                    xfp = at["R"].get("x-forwarded-proto")
+                    if xfp and xfp.lower() in ("http", "https") and xfp.lower() != at["C"]:
+                        at["C"] = conn["scheme"] = xfp.lower()
+            elif mod == "mod_rewrite" and not rw_done:
+                if cfg.rw_node is None or cfg.applies(cfg.rw_node, at):
+                    for pat, repl, _ in RW_RULES:
+                        if re.search(pat, cur):
+                            cur = re.sub(pat, repl, cur)
+                            rw_done = restart = True
+                            break
+                if restart:
+                    break
+        if not restart:
+            return core, at
+        # HANDLER_COMEBACK: the request is re-parsed from the rewritten target; remote address
+        # and (connection) scheme keep what the forwarder said
+        path, _, query = cur.partition("?")
+        at = dict(at, U=path, Q=query, C=conn["scheme"])
+    raise AssertionError("rewrite loop")
+
+
+def attrs_tok(at):
+    toks = [attr_tok(c, at[c]) for c in "UHQCMS"]
+    toks.append("I:%d:%s:%s" % (at["I"][0], at["I"][1].hex(), C.hx(at["I"][2])))
+    toks += ["R:%s:%s" % (C.hx(k), C.hx(v)) for k, v in sorted(at["R"].items())]
+    return ";".join(toks)
+
+
+def srv_request(rng, cfg, conn_peer):
+    peer = conn_peer if rng.random() < 0.6 else rng.choice([TRUSTED, TRUSTED, UNTRUSTED])
+    method = rng.choice(["GET", "GET", "HEAD", "DELETE"])
+    pre = rng.choice(["", "", "/rw", "/rw", "/q", "/php"])
+    path = pre + rng.choice(["/a", "/a/b", "/b", "/c", "/a/x", "/b/x"])
+    if pre in ("", "/rw") and rng.random() < 0.4:
+        path += "?" + rng.choice(["a=1", "z", "b=2"])
+    host = rng.choice(["h1", "h2", "example.com", "h1:8080"])
+    hdrs = []
+    if rng.random() < 0.75:
+        hdrs.append(("X-Forwarded-For", rng.choice(["10.1.2.3", "10.200.0.1", "192.168.1.1", "2001:db8::1"])))
+        # (a trusted proxy states the scheme of every request it forwards)
+        if peer == TRUSTED or rng.random() < 0.5:
+            hdrs.append(("X-Forwarded-Proto", rng.choice(["https", "https", "http"])))
+    if rng.random() < 0.5:
+        hdrs.append(("User-Agent", rng.choice(["Mozilla/5.0", "curl/8"])))
+    if rng.random() < 0.3:
+        hdrs.append(("X-Foo", rng.choice(["bar", "baz"])))
+    return peer, method, path, host, hdrs
+
+
+def srv_line(rng, max_nodes, nreq):
+    comps = rng.sample(list("UQCIHMR"), rng.choice([2, 3, 7]))
+    if rng.random() < 0.7 and "C" not in comps:
+        comps.append("C")
+    cfg = rand_config(rng, max_nodes, comps)
+    order = ["mod_extforward", "mod_rewrite"]
+    if rng.random() < 0.35:
+        order.reverse()
+    cfg.head = srv_head(order)
+    cfg.order = order
+    cfg.rw_node = None
+    if len(cfg.nodes) > 1 and rng.random() < 0.35:
+        cfg.rw_node = rng.randrange(1, len(cfg.nodes))
+        cfg.nodes[cfg.rw_node].extra = [RW_LINE]
+    else:
+        cfg.head.append(RW_LINE)
+    remember(cfg)
+    conn = {"scheme": "http"}
+    conn_peer = None
+    reqs = []
+    for _ in range(nreq):
+        rq = srv_request(rng, cfg, conn_peer or TRUSTED)
+        if rq[0] != conn_peer:
+            conn = {"scheme": "http"}         # another client: a new connection
+            conn_peer = rq[0]
+        core, clean = srv_reference(cfg, conn, rq)
+        head = "%s %s HTTP/1.1\r\nHost: %s\r\n%s\r\n" % (
+            rq[1], rq[2], rq[3], "".join("%s: %s\r\n" % kv for kv in rq[4]))
+        reqs.append("q,%s,%s,%s,%s" % (C.hx(rq[0]), C.hx(head), attrs_tok(core), attrs_tok(clean)))
+    return "srv %s %s / %s" % (C.hx(cfg.text()), " ".join(cfg.tokens()), " ".join(reqs))
+
+
+def attrs_from_tok(tok):
+    at = blank_attrs()
+    for a in tok.split(";"):
+        apply_attr(at, a)
+    return at
+
+
+def srv_oracle(cfg, reqs, obs, verbose):
+    """settings in force at each hook = the language evaluated on the attributes the request
+    must have at that moment (reference history in the request token, computed by
+    srv_reference from what peer and forwarder headers say)"""
+    if len(obs) != len(reqs):
+        return "number of observations differs from number of requests"
+    n = len(cfg.nodes)
+    for k, (rq, ob) in enumerate(zip(reqs, obs)):
+        f = rq.split(",")
+        core, clean = attrs_from_tok(f[3]), attrs_from_tok(f[4])
+        o = ob.split(",")
+        det = " [request %d]" % k if verbose else ""
+        if o[2] == "d-":
+            return "request did not reach the docroot hook" + det
+        got_attr = [C.unhx(x).decode("latin-1") for x in o[3:7]]
+        want_attr = [clean["C"], clean["U"], clean["Q"], clean["I"][2]]
+        for nm, g, w in zip(("scheme", "url", "query string", "remote address"), got_attr, want_attr):
+            if g != w:
+                return ("after module rewrites / request restart the request's %s is not what peer, trusted "
+                        "forwarder and rewrite rule define" % nm) + (det + " got %r want %r" % (g, w) if verbose else "")
+        cv = [int(x) for x in o[0][1:].split(".")]
+        for d, got in zip((0, 1, 2), cv):
+            if got != cfg.value(d, core):
+                return ("mini server: core setting in force is not the last contributing block for the request's "
+                        "attributes at http_response_config()") + det
+        if o[1] != "e-":
+            ev = [int(x) for x in o[1][1:].split(".")]
+            for d, got in zip((3, 4, 5), ev):
+                if got != cfg.value(d, clean):
+                    return ("mini server: mod_setenv setting in force is not the last contributing block for the "
+                            "request's attributes at the uri_clean hook") + det
+        bits = o[2][1:]
+        for i in range(1, n):
+            if (bits[i - 1:i] == "1") != cfg.applies(i, clean):
+                return ("mini server: config_check_cond at the docroot hook differs from the language on the "
+                        "request's current attributes") + det
+    return None
+
+
+def gen_srv(ctx):
+    rng = ctx.rng
+    lines = [srv_line(rng, rng.choice([2, 4, 8]), rng.choice([2, 4, 6])) for _ in range(4000 if ctx.quick else 40000)]
+    yield lines
+    _cfg_cache.clear()
+
+
+def gen_rewrites(ctx):
+    """attribute-rewrite histories: nested / chained trees, every sequence of checks and
+    rewrites (+ reset_item) of length 4 (thorough: 5 for two blocks) ending in a check"""
+    P2, P3 = SMALL_CONDS[:2], SMALL_CONDS[:3]
+    first = "n,0,%s,%s" % (ALL, ";".join([attr_tok("H", "h2"), attr_tok("U", "/b"), attr_tok("C", "http")]))
+    for k, pool, seqlen in ([(2, P3, 4), (3, P2, 4)] if ctx.quick else [(2, P3, 5), (3, P2, 4), (3, P3, 4)]):
+        lines = []
+        for cfg in small_configs(k, pool, ctx.rng, None):
+            remember(cfg)
+            n = len(cfg.nodes)
+            used = set(cfg.comp_of(i) for i in range(1, n))
+            checks = ["k,0,%d" % i for i in range(1, n)]
+            alpha = checks + ["a,0," + a for a in SMALL_ATTRS if a[0] in used]
+            for seq in itertools.product(alpha, repeat=seqlen - 1):
+                if not any(x[0] == "a" for x in seq):
+                    continue
+                for c in checks:
+                    lines.append(make_line(cfg, [first] + list(seq) + [c]))
+        ctx.notes.append("rewrite histories: %d blocks (%d conditions + else), all sequences of checks and "
+                         "attribute rewrites of length %d ending in a check: %d cases" % (k, len(pool), seqlen, len(lines)))
+        for i in range(0, len(lines), 200000):
+            yield lines[i:i + 200000]
+        _cfg_cache.clear()
+
+
 def gen_match(ctx):
     """CIDR / host:port matrix: every configured network against every peer"""
     rng = ctx.rng
@@ -873,8 +1098,13 @@ def run(ctx):
     if exe is None:
         ctx.broken.append({"kind": "harness-build", "names": ["h_cond"], "log": (err or "")[-3000:]})
         return
+    root = C.scratch_dir("c14")
+    os.makedirs(os.path.join(root, "docroot"))
+    os.environ["LTV_C14_ROOT"] = root          # (parallel_lines() has no env parameter)
     for name, g in (("cond(regression corpus)", gen_corpus),
                     ("cond(exhaustive small trees x op sequences)", gen_small),
+                    ("cond(attribute-rewrite histories)", gen_rewrites),
+                    ("srv(mini server: extforward + rewrite restarts + setenv)", gen_srv),
                     ("cond(random trees, long op sequences)", gen_random),
                     ("cond(CIDR / host:port matrix)", gen_match)):
         for lines in g(ctx):
@@ -900,6 +1130,9 @@ def replay_line(ctx, rep):
     if exe is None:
         print("harness build failed:", err)
         return 1
+    root = C.scratch_dir("c14")
+    os.makedirs(os.path.join(root, "docroot"))
+    os.environ["LTV_C14_ROOT"] = root
     o, rc, e = C.run_lines([exe], [rep["input"]])
     m, _, _ = C.run_model("cond", [rep["input"]])
     print("input:", rep["input"])
